@@ -38,6 +38,10 @@ pub struct Case {
     pub dict_a: DictSpec,
     pub dict_b: Option<DictSpec>,
     pub frames: Vec<DFrame>,
+    /// an older edition of dictionary A (other tables, other content, SAME id) was registered
+    /// first and then replaced by registering A under the same id
+    #[serde(default)]
+    pub superseded: bool,
 }
 
 fn dframe_strategy(tier: Tier) -> impl Strategy<Value = DFrame> {
@@ -60,7 +64,10 @@ fn dframe_strategy(tier: Tier) -> impl Strategy<Value = DFrame> {
 }
 
 fn case_strategy(tier: Tier) -> impl Strategy<Value = Case> {
-    (dict_strategy(), prop::option::weighted(0.5, dict_strategy()), prop::collection::vec(dframe_strategy(tier), 1..=10)).prop_map(|(dict_a, dict_b, frames)| Case { dict_a, dict_b, frames })
+    (dict_strategy(), prop::option::weighted(0.5, dict_strategy()), prop::collection::vec(dframe_strategy(tier), 1..=10)).prop_map(|(dict_a, dict_b, frames)| {
+        let superseded = dict_a.seed % 10 < 3;
+        Case { dict_a, dict_b, frames, superseded }
+    })
 }
 
 struct Dicts {
@@ -127,13 +134,36 @@ pub fn check(case: &Case, ctx: &mut CaseCtx) -> CaseResult {
     }
     // decoder with all dictionaries registered
     let mut dec = FrameDecoder::new();
-    for b in &d.built {
+    if case.superseded {
+        // the older edition: trained on other samples, stamped with A's id
+        let mut old_spec = case.dict_a.clone();
+        old_spec.seed ^= 0x5151;
+        old_spec.rep_patch = Some([2, 7, 11]);
+        if let Ok(mut old) = old_spec.build() {
+            if old.bytes.len() >= 8 && old.bytes != d.built[0].bytes {
+                old.bytes[4..8].copy_from_slice(&d.built[0].id.to_le_bytes());
+                if let Ok(parsed) = Dictionary::decode_dict(&old.bytes) {
+                    let _ = dec.add_dict(parsed);
+                    ctx.feat("registry:older_edition_under_the_same_id_registered_first");
+                }
+            }
+        }
+    }
+    for (bi, b) in d.built.iter().enumerate() {
         let parsed = match Dictionary::decode_dict(&b.bytes) {
             Ok(p) => p,
             Err(e) => fail!("reference_dictionary_rejected", "decode_dict rejects a dictionary from the reference trainer ({} bytes, id {}): {e}", b.bytes.len(), b.id),
         };
         ensure!(parsed.id == b.id, "dictionary_id_wrong", "decode_dict reports id {} for a dictionary with id {}", parsed.id, b.id);
-        dec.add_dict(parsed).map_err(|e| Failure::new("add_dict_failed", format!("{e}")))?;
+        if let Err(e) = dec.add_dict(parsed) {
+            if case.superseded && bi == 0 {
+                // a registry may decline a second dictionary under an id it holds - openly; what it
+                // may not do is report success and keep decoding with the old one
+                ctx.feat("registry:replacement_declined_with_an_error");
+                return Ok(());
+            }
+            return Err(Failure::new("add_dict_failed", format!("{e}")));
+        }
     }
     let mut nontrivial = 0;
     let mut hash_parts: Vec<Vec<u8>> = vec![];
